@@ -112,12 +112,109 @@ def run(ctx):
                "mask-pair contradiction lint; not that the solver's answer satisfies them")
     rule_maskpair(ctx)
     rule_limits(ctx)
+    rule_partial_else(ctx)
+    rule_dc_flow_limits(ctx)
+    rule_dcline_sides(ctx)
+
+
+def rule_dcline_sides(ctx):
+    """the two auxiliary generators of a DC line carry the limits of their own converter station"""
+    import ast
+    from ppsa.astutil import norm, call_name, dotted
+    R = "DCLINE-SIDE"
+    ctx.rule(R, "in _add_dcline_gens each create_gen call takes bus, vm set point and both q limits from one side of the DC line "
+                "(from xor to), max from max and min from min")
+    fi = ctx.repo.func("pandapower.auxiliary:_add_dcline_gens")
+    n = 0
+    for c in ast.walk(fi.node):
+        if not (isinstance(c, ast.Call) and call_name(c) == "create_gen"):
+            continue
+        n += 1
+        sides = {}
+        bad = []
+        for kw in c.keywords:
+            for a in ast.walk(kw.value):
+                d = dotted(a) if isinstance(a, ast.Attribute) else None
+                if d and d.startswith("dctab."):
+                    attr = d.split(".", 1)[1]
+                    side = "from" if ("_from_" in attr or attr.startswith("from_")) else ("to" if ("_to_" in attr or attr.startswith("to_")) else None)
+                    if side:
+                        sides.setdefault(side, []).append(f"{kw.arg}={attr}")
+                    if kw.arg in ("max_q_mvar", "min_q_mvar") and not attr.startswith(kw.arg[:5]):
+                        bad.append(f"{kw.arg}={attr}")
+        ok = len(sides) == 1 and not bad
+        side = next(iter(sides)) if len(sides) == 1 else "?"
+        ctx.ob(R, f"pandapower.auxiliary::_add_dcline_gens::gen-at-{norm(next((k.value for k in c.keywords if k.arg == 'bus'), c), 30)}", ok,
+               f"all station data of this generator come from the '{side}' side" if ok else
+               f"the generator mixes the two converter stations / limit kinds: {sides} {bad}: the OPF enforces the other station's limits here", fi.loc(c))
+    if n != 2:
+        ctx.fail(f"_add_dcline_gens: {n} create_gen calls found (confirmed: 2)")
+
+
+def rule_partial_else(ctx):
+    """if <reduce>(m): A[idx[~m], c] = v[~m]  else: A[idx, c] = v   - the unmasked else branch is right only when no entry of m
+    is set, i.e. the test must be any(m)"""
+    import ast
+    from ppsa.astutil import norm, last_attr
+    R = "PARTIAL-ELSE"
+    ctx.rule(R, "an if/else whose then-branch assigns only the rows outside a violation mask and whose else-branch assigns all rows "
+                "must be decided by np.any(mask): with np.all the else-branch overwrites the limits of the violating rows too")
+    n = 0
+    for mn in ("pandapower.build_gen", "pandapower.build_bus", "pandapower.build_branch", "pandapower.opf.validate_opf_input"):
+        for fi in ctx.repo.module(mn).functions.values():
+            for node in ast.walk(fi.node):
+                if not (isinstance(node, ast.If) and node.orelse and isinstance(node.test, ast.Call) and node.test.args
+                        and isinstance(node.test.args[0], ast.Name)):
+                    continue
+                m = node.test.args[0].id
+                then_masked = [st for st in node.body if isinstance(st, ast.Assign) and f"~{m}" in norm(st.targets[0])]
+                else_all = [st for st in node.orelse if isinstance(st, ast.Assign) and m not in norm(st.targets[0])]
+                if not then_masked or not else_all:
+                    continue
+                # same target matrix column
+                col = lambda st: norm(st.targets[0].slice.elts[-1]) if isinstance(st.targets[0], ast.Subscript) and isinstance(st.targets[0].slice, ast.Tuple) else None
+                if col(then_masked[0]) is None or col(then_masked[0]) != col(else_all[0]):
+                    continue
+                n += 1
+                ok = last_attr(node.test) == "any"
+                ctx.ob(R, f"{fi.module.name}::{fi.qualname}::{col(then_masked[0])}:{m}", ok,
+                       f"partial assignment of {col(then_masked[0])} is chosen with any({m})" if ok else
+                       f"`if {norm(node.test)}` chooses between the masked and the unmasked assignment of {col(then_masked[0])}: when only some "
+                       f"rows violate, the unmasked branch overwrites the bus limit with the violating values", fi.loc(node))
+    if n < 2:
+        ctx.fail(f"PARTIAL-ELSE: only {n} masked/unmasked assignment pairs found (confirmed: 2 in _check_gen_vm_limits)")
+
+
+def rule_dc_flow_limits(ctx):
+    """DC OPF branch flow limits with phase-shift injection: -rate - Pfinj <= Bf*Va <= rate - Pfinj, written as the two upper
+    bounds  upf = rate - Pfinj  (from->to)  and  upt = rate + Pfinj  (to->from)"""
+    import ast
+    from ppsa.astutil import norm
+    R = "DC-FLOW-LIMIT"
+    ctx.rule(R, "in opf_setup the two DC flow bounds carry the phase-shift injection with opposite signs (upf: -Pfinj, upt: +Pfinj) and "
+                "the same rating term RATE_A / baseMVA")
+    fi = ctx.repo.func("pandapower.pypower.opf_setup:opf_setup")
+    got = {}
+    for st in ast.walk(fi.node):
+        if isinstance(st, ast.Assign) and isinstance(st.targets[0], ast.Name) and st.targets[0].id in ("upf", "upt") \
+                and isinstance(st.value, ast.BinOp) and isinstance(st.value.op, (ast.Add, ast.Sub)) and "Pfinj" in norm(st.value.right):
+            got[st.targets[0].id] = (("+" if isinstance(st.value.op, ast.Add) else "-"), norm(st.value.left), st)
+    if set(got) != {"upf", "upt"}:
+        ctx.fail("opf_setup: upf / upt bounds with the Pfinj term not found")
+    ok = got["upf"][0] == "-" and got["upt"][0] == "+" and got["upf"][1] == got["upt"][1] and "RATE_A" in got["upf"][1] and "baseMVA" in got["upf"][1]
+    ctx.ob(R, "pandapower.pypower.opf_setup::opf_setup::upf-upt", ok,
+           "upf = rate - Pfinj, upt = rate + Pfinj" if ok else
+           f"upf = {got['upf'][1]} {got['upf'][0]} Pfinj, upt = {got['upt'][1]} {got['upt'][0]} Pfinj: with a phase shifter one direction's limit is "
+           "wrong by 2*Pfinj", fi.loc(got["upt"][2]))
 
 
 def variants(repo):
     bg = "pandapower/build_gen.py"
     V = Variant
     return [
+        V("partial limit assignment chosen with all()", bg, in_function("_check_gen_vm_limits", lambda s: s.replace("        if np.any(v_max_bound):", "        if np.all(v_max_bound):", 2).replace("    if np.all(v_max_bound):\n        bound_gens", "    if np.any(v_max_bound):\n        bound_gens", 1)), "PARTIAL-ELSE"),
+        V("dc flow bound sign", "pandapower/pypower/opf_setup.py", replace_once("upt = branch[il, RATE_A] / baseMVA + Pfinj[il]", "upt = branch[il, RATE_A] / baseMVA - Pfinj[il]"), "DC-FLOW-LIMIT"),
+        V("dcline to-side gen with from-side q limit", "pandapower/auxiliary.py", in_function("_add_dcline_gens", replace_once("max_q_mvar=dctab.max_q_to_mvar", "max_q_mvar=dctab.max_q_from_mvar")), "DCLINE-SIDE"),
         V("vmin mask copy-paste", bg, replace_once("ppc[\"bus\"][gen_buses[~v_min_bound], VMIN]", "ppc[\"bus\"][gen_buses[~v_max_bound], VMIN]"), "MASKPAIR"),
         V("load q limits not swapped", bg, in_function("add_q_constraints", replace_once('ppc["gen"][f:t, QMAX] = -tab["min_q_mvar"].values[is_element] + delta', 'ppc["gen"][f:t, QMIN] = -tab["min_q_mvar"].values[is_element] + delta')), "load.min_q_mvar->QMAX"),
         V("load p limit sign", bg, in_function("add_p_constraints", replace_once('ppc["gen"][f:t, PMAX] = - tab["min_p_mw"].values[is_element] + delta', 'ppc["gen"][f:t, PMAX] = tab["min_p_mw"].values[is_element] + delta')), "load.min_p_mw->PMAX"),
